@@ -363,6 +363,11 @@ bool splinetable<Alloc>::read_fits_core(fitsfile* fits, const std::string& fileP
 			throw std::runtime_error("Error reading size of knot vector "+std::to_string(i));
 		if(nknots_temp<=0)
 			throw std::runtime_error("Invalid number of knots ("+std::to_string(nknots_temp)+") in dimension "+std::to_string(i));
+		//Evaluation needs at least order+1 basis functions per dimension,
+		//which takes 2*order+2 knots. (This also catches absurd orders, such
+		//as a negative ORDER value read into the unsigned order array.)
+		if(uint64_t(nknots_temp) < 2*uint64_t(order[i])+2)
+			throw std::runtime_error("Invalid number of knots ("+std::to_string(nknots_temp)+") in dimension "+std::to_string(i)+": fewer than 2*order+2 for spline order "+std::to_string(order[i]));
 		nknots[i]=nknots_temp;
 		
 		//Allow spline evaluations to run off the ends of the
